@@ -422,6 +422,9 @@ class Ctx:
                 holder["case"] = case
                 holder["msg"] = str(v)
                 raise
+            except BaseException:
+                holder["harness"] = True  # raised by the check, not by
+                raise                     # Hypothesis
 
         phases = [Phase.explicit, Phase.generate, Phase.target]
         if shrink:
@@ -443,6 +446,15 @@ class Ctx:
                 # the case that failed (it is re-checked by the replay).
                 self.violation(sub, holder["case"], holder["msg"])
                 self.rec.notes.append(f"{sub}: flaky under Hypothesis: {exc}")
+            elif "case" in holder and "harness" not in holder \
+                    and isinstance(exc, Exception):
+                # an error inside Hypothesis itself while it was shrinking a
+                # violation it had found (seen: ValueError from the text
+                # shrinker): report the last failing case, unshrunk
+                self.violation(sub, holder["case"], holder["msg"])
+                self.rec.notes.append(
+                    f"{sub}: Hypothesis failed while shrinking: "
+                    f"{type(exc).__name__}: {exc}")
             else:
                 raise
 
